@@ -1,6 +1,7 @@
 import YtkModel.Wire
 import YtkModel.Clone
 import YtkModel.Generated.CloneTable
+import YtkModel.OpStringsWire
 open Lean
 
 namespace Ytk.C15
@@ -67,6 +68,7 @@ def handle : Wire.Handler := fun op a => do
     let v ← (a.getObjVal? "v") >>= cvOfJson
     let x ← Wire.getStr a "x"
     pure (cvToJson (cloneV Generated.cloneTable (renderX x) v))
+  | "string" | "cloneString" | "strMod" | "strCoord" => OpStrings.handleWire cvOfJson renderX op a
   | _ => throw s!"C15: unknown op {op}"
 
 end Ytk.C15
